@@ -20,6 +20,7 @@ type item struct {
 	enqInvoke, enqReturn uint64
 	enqReturnTime        time.Time
 	execs                int
+	never                bool
 	execStep             uint64
 	execTime             time.Time
 }
@@ -77,6 +78,9 @@ func body(s *simrt.Sim, tier string) {
 				}
 				o.off = offsets[s.Choose(len(offsets), "off")]
 				o.it = &item{id: len(items), key: o.key}
+				if s.Choose(12, "never") == 0 {
+					o.it.never = true // a "never" sentinel: scheduled at the end of time, it must simply stay behind everything else
+				}
 				items = append(items, o.it)
 			case k < 8:
 				o.kind = opDeq
@@ -136,6 +140,9 @@ func body(s *simrt.Sim, tier string) {
 				switch o.kind {
 				case opEnq:
 					o.it.t = time.Now().Add(o.off)
+					if o.it.never {
+						o.it.t = time.Date(9999, 12, 31, 23, 59, 59, 0, time.UTC)
+					}
 					o.it.enqInvoke = s.Stamp()
 					s.Logf("enq i%d %s +%v", o.it.id, o.key, o.off)
 					p.Enqueue(o.it)
@@ -240,7 +247,7 @@ func body(s *simrt.Sim, tier string) {
 		if x.execs >= 1 && surelyRemoved && removedBy != 0 && removedBy < x.execStep {
 			s.Fail("executed-after-removal", fmt.Sprintf("item i%d (key %s) executed at step %d although a Dequeue/replacement of its key returned at step %d, before the item became due", x.id, x.key, x.execStep, removedBy))
 		}
-		if x.execs == 0 && !maybeRemoved {
+		if x.execs == 0 && !maybeRemoved && !x.never {
 			s.Fail("stranded-item", fmt.Sprintf("item i%d (key %s, due %v before settle) was never executed although it was neither dequeued nor replaced; live loop goroutines: %v", x.id, x.key, time.Since(x.t), s.Live("")))
 		}
 		if x.execs >= 1 && !closeRace {
